@@ -30,6 +30,8 @@ type MirrorMon struct {
 	shareOps  int
 	lastReset map[string]int
 	Exact     int // checks done right after the delegator's own rebalancing tx (tolerance = #delegations only)
+	// classification of a delegator's imbalance is fixed when it first appears and kept until it is balanced again
+	cls map[string]string
 }
 
 func (m *MirrorMon) check(s *Sim, where string, step int) {
@@ -100,10 +102,55 @@ func (m *MirrorMon) check(s *Sim, where string, step int) {
 		if n > 1 || !sp.IsZero() {
 			m.NonTriv++
 		}
+		if m.cls == nil {
+			m.cls = map[string]string{}
+		}
+		if !diff.GT(tol) {
+			delete(m.cls, d)
+		}
 		if diff.GT(tol) {
-			m.Run.Violation("mirror-mismatch", "sum(provider delegations) != sum(validator tokens)", fmt.Sprintf("%s: delegator %s validators=%s (in %d delegations) providers=%s diff=%s", where, d, sumVal, n, sp, diff), m.wit(s, step))
+			if m.cls[d] == "" {
+				m.cls[d] = rebalanceOutcome(s, acc)
+			}
+			m.Run.Violation("mirror-mismatch", m.cls[d], fmt.Sprintf("%s: delegator %s validators=%s (in %d delegations) providers=%s diff=%s", where, d, sumVal, n, sp, diff), m.wit(s, step))
 		}
 	}
+}
+
+// rebalanceOutcome runs the code's own BalanceDelegator for d in a throw-away cache context and
+// classifies why a delegator is (still) unbalanced.
+func rebalanceOutcome(s *Sim, d sdk.AccAddress) string {
+	cc, _ := s.TS.Ctx.CacheContext()
+	_, err := s.TS.Keepers.Dualstaking.BalanceDelegator(cc, d)
+	if err == nil {
+		return "rebalancing-would-succeed(never triggered)"
+	}
+	e := err.Error()
+	switch {
+	case strings.Contains(e, "self delegation below minimum"):
+		return "vault: uniform unbond after a slash would push an entry's self stake below the minimum self delegation, so rebalancing fails"
+	default:
+		if len(e) > 80 {
+			e = e[:80]
+		}
+		return "rebalancing-fails: " + e
+	}
+}
+
+// vaultUnbalanced tells whether the vault's provider delegations exceed its validator tokens beyond rounding.
+func vaultUnbalanced(s *Sim, vault string) (bool, string) {
+	acc, err := sdk.AccAddressFromBech32(vault)
+	if err != nil {
+		return false, ""
+	}
+	diff, n, err := s.TS.Keepers.Dualstaking.VerifyDelegatorBalance(s.TS.Ctx, acc)
+	if err != nil {
+		return false, ""
+	}
+	if diff.Abs().GT(sdk.NewInt(int64(n) + 64)) {
+		return true, rebalanceOutcome(s, acc)
+	}
+	return false, ""
 }
 
 func (m *MirrorMon) wit(s *Sim, step int) map[string]any {
@@ -111,7 +158,12 @@ func (m *MirrorMon) wit(s *Sim, step int) map[string]any {
 }
 
 var shareRemoving = map[string]bool{"st_undelegate": true, "st_redelegate": true, "ds_unbond": true, "stake": true, "unstake": true, "slash": true, "st_cancel": true, "ds_delegate": true, "st_delegate": true}
-var rebalancing = map[string]bool{"st_delegate": true, "st_undelegate": true, "st_cancel": true, "ds_delegate": true, "ds_unbond": true, "stake": true, "unstake": true}
+
+// txs after which the signer was fully rebalanced by the code (BalanceDelegator through the
+// AfterDelegationModified hook). Undelegations are not in this set: removing a whole delegation goes
+// through BeforeDelegationRemoved, which only subtracts the ceil of the removed tokens and keeps the
+// rounding excess of the other delegations.
+var rebalancing = map[string]bool{"st_delegate": true, "st_cancel": true, "ds_delegate": true}
 
 func (m *MirrorMon) AfterTx(s *Sim, r *TxRes) {
 	if m.lastReset == nil {
@@ -158,6 +210,9 @@ type StakeMon struct {
 	Checks  int
 	Touched int
 	Froze   int
+	// once a provider's self stake went out of sync for a classified reason it stays so: keep the class
+	selfStakeKnown map[string]string
+	preUnbalanced  map[string]string
 }
 
 func (m *StakeMon) snapshot(s *Sim) map[string]*provSnap {
@@ -196,7 +251,20 @@ func (m *StakeMon) snapshot(s *Sim) map[string]*provSnap {
 	return out
 }
 
-func (m *StakeMon) BeforeTx(s *Sim, name string, msg sdk.Msg) { m.before = m.snapshot(s) }
+func (m *StakeMon) BeforeTx(s *Sim, name string, msg sdk.Msg) {
+	if m.selfStakeKnown == nil {
+		m.selfStakeKnown = map[string]string{}
+	}
+	m.before = m.snapshot(s)
+	// classify *before* the tx: is any vault already unbalanced?
+	m.preUnbalanced = map[string]string{}
+	mds, _ := s.TS.Keepers.Epochstorage.GetAllMetadata(s.TS.Ctx)
+	for _, md := range mds {
+		if unb, why := vaultUnbalanced(s, md.Vault); unb {
+			m.preUnbalanced[md.Provider] = why
+		}
+	}
+}
 
 func snapEqual(a, b *provSnap) bool {
 	if a == nil || b == nil {
@@ -276,7 +344,18 @@ func (m *StakeMon) structural(s *Sim, where string, step int) {
 			}
 		}
 		if !sumStake.Equal(vaultDel) {
-			m.Run.Violation("self-stake-vs-vault-delegation", "sum(entry.Stake) != vault delegation", fmt.Sprintf("%s: provider %s sum(stake)=%s vault delegation=%s", where, md.Provider, sumStake, vaultDel), m.wit(s, step))
+			sig := "sum(entry.Stake) != vault delegation"
+			if m.selfStakeKnown[md.Provider] != "" {
+				sig = m.selfStakeKnown[md.Provider]
+			} else if d := sumStake.Sub(vaultDel).Abs(); d.LTE(sdk.NewInt(8)) && s.lastTx != nil {
+				sig = "rounding: vault delegation and self stake differ by a few tokens after tx:" + s.lastTx.Name + " (DelegateFull/UnbondFull move the ceil-rounded balance difference of a validator whose share price is not 1)"
+				m.selfStakeKnown[md.Provider] = sig
+			} else if why, unb := m.preUnbalanced[md.Provider]; unb {
+				// a stake increase of an unbalanced vault only delegates the net difference
+				sig = "vault unbalanced before the stake change (" + why + ")"
+				m.selfStakeKnown[md.Provider] = sig
+			}
+			m.Run.Violation("self-stake-vs-vault-delegation", sig, fmt.Sprintf("%s: provider %s sum(stake)=%s vault delegation=%s", where, md.Provider, sumStake, vaultDel), m.wit(s, step))
 		}
 		if !md.TotalDelegations.Amount.Equal(others) {
 			m.Run.Violation("total-delegations-mismatch", "metadata.TotalDelegations != sum(non-vault delegations)", fmt.Sprintf("%s: provider %s metadata=%s sum=%s", where, md.Provider, md.TotalDelegations.Amount, others), m.wit(s, step))
